@@ -136,6 +136,9 @@ thread_local! {
 pub struct ScriptStream {
     /// the stream has returned `None` once
     ended: bool,
+    /// like `futures::stream::unfold` (and so `ChunkedReadFile`): polling after the end panics
+    /// instead of answering `None` again (about one stream in three)
+    strict_end: bool,
     evs: VecDeque<Ev>,
     /// what `Stream::size_hint` claims (advisory; nothing in `serve` may trust it): 0 = the
     /// default `(0, None)`, 1 = exact and honest, 2 = "nothing left" `(0, Some(0))`, 3 = huge,
@@ -157,7 +160,8 @@ impl ScriptStream {
                 _ => "an entity stream's size_hint claimed (5, Some(1))",
             });
         }
-        ScriptStream { ended: false, evs: script.into_iter().collect(), hint }
+        let strict_end = (t.wrapping_mul(0xD1B5_4A32_D192_ED03) >> 41) % 3 == 0;
+        ScriptStream { ended: false, strict_end, evs: script.into_iter().collect(), hint }
     }
 }
 
@@ -180,6 +184,9 @@ impl Stream for ScriptStream {
             None => {
                 if self.ended {
                     OVERPOLLS.with(|c| c.set(c.get() + 1));
+                    if self.strict_end {
+                        panic!("entity stream polled after it had reported its end (a Stream may panic then; stream::unfold does)");
+                    }
                 }
                 self.ended = true;
                 Poll::Ready(None)
